@@ -223,3 +223,72 @@ def check_handler_records_failure(eng: Engine, fn: FuncInfo, v: Verdict, handler
         p = cfg.find_path(h, bad, avoid=targets)
         return ("a path from the handler reaches a success update", cfg.describe_path(p) if p else [])
     return None
+
+
+# ---------------------------------------------------------------- score ranges of a scored constraint
+@dataclass
+class ScoreSite:
+    fn: FuncInfo  # the function that appends scores (ComparisonConstraint.fitness)
+    line: int
+    expr: ast.AST  # the appended expression
+    failing: Optional[object] = None  # interval.AV of the score when the comparison does not hold
+    holding: Optional[object] = None  # interval.AV of the score when it holds
+    via: str = ""
+
+
+def score_sites(eng: Engine, cls: ClassInfo) -> tuple[list[ScoreSite], str]:
+    """For a constraint class whose verdict is `all(x == 1.0 for x in L)` (kind ALL1): every `L.append(X)` of its
+    fitness() with the range of X, computed by interval interpretation, split by the outcome of the one test
+    `self._operator.compare(...)` in the scoring helper.  Returns (sites, name of L)."""
+    from ..interval import Interp, TOP
+
+    fn = eng.method(cls, "fitness")
+    fv = final_verdict(eng, fn)
+    vs = [fv] if fv is not None and fv.kind == "ALL1" else []
+    if not vs:
+        raise AnalysisError(f"{fn.fq}: the verdict is no longer `all(x == 1.0 for x in <scores>)`; the score-range rule has lost its anchor")
+    lst = vs[0].lst
+    sites: list[ScoreSite] = []
+    # local definitions `a, b = self.helper(...)`
+    tuple_defs: dict[str, tuple[ast.Call, int]] = {}
+    for n in ast.walk(fn.node):
+        if isinstance(n, ast.Assign) and len(n.targets) == 1 and isinstance(n.targets[0], ast.Tuple) and isinstance(n.value, ast.Call):
+            for i, el in enumerate(n.targets[0].elts):
+                if isinstance(el, ast.Name):
+                    tuple_defs[el.id] = (n.value, i)
+        elif isinstance(n, ast.Assign) and len(n.targets) == 1 and isinstance(n.targets[0], ast.Name) and isinstance(n.value, ast.Call):
+            tuple_defs[n.targets[0].id] = (n.value, -1)
+    for n in ast.walk(fn.node):
+        if isinstance(n, ast.Call) and isinstance(n.func, ast.Attribute) and n.func.attr == "append" and norm(n.func.value) == lst and len(n.args) == 1:
+            x = n.args[0]
+            site = ScoreSite(fn, n.lineno, x)
+            if isinstance(x, ast.Name) and x.id in tuple_defs:
+                call, idx = tuple_defs[x.id]
+                callees, how = eng.cg.resolve_call(fn, call)
+                if how != "exact" or len(callees) != 1:
+                    site.failing = site.holding = TOP
+                    site.via = f"{short(call, 50)} (unresolved)"
+                else:
+                    mod, qn = next(iter(callees)).split(":")
+                    helper = eng.func(mod, qn)
+                    tests = [t for t in ast.walk(helper.node) if isinstance(t, ast.Call) and isinstance(t.func, ast.Attribute) and t.func.attr == "compare"]
+                    if len(tests) != 1:
+                        raise AnalysisError(f"{helper.fq}: expected exactly one `<operator>.compare(...)` test, found {len(tests)}")
+                    the_test = tests[0]
+                    for outcome in (False, True):
+                        it = Interp(eng, helper, {}, assume=lambda t, o=outcome: o if t is the_test else None)
+                        v = it.run()
+                        if idx >= 0:
+                            v = v.items[idx] if v.items is not None and not v.other and not v.none and idx < len(v.items) else TOP
+                        if outcome:
+                            site.holding = v
+                        else:
+                            site.failing = v
+                    site.via = f"{helper.fq} (test `{short(the_test, 50)}`)"
+            else:
+                it = Interp(eng, fn, {})
+                v = it.ev(x) if isinstance(x, (ast.Constant, ast.UnaryOp, ast.BinOp)) else TOP
+                site.failing = site.holding = v
+                site.via = "literal"
+            sites.append(site)
+    return sites, lst or "?"
